@@ -476,6 +476,9 @@ func (p *c08Proxy) ws(w http.ResponseWriter, req *http.Request) {
 			if err != nil {
 				return
 			}
+			if mt == websocket.TextMessage {
+				data = p.hideSender(data)
+			}
 			if down.WriteMessage(mt, data) != nil {
 				return
 			}
@@ -497,6 +500,27 @@ func (p *c08Proxy) ws(w http.ResponseWriter, req *http.Request) {
 		}
 	}()
 	<-done
+}
+
+// hideSender: the receiver dials the sender's candidates as well; they are replaced by a
+// closed port, so that the attacker's port is the only way between the peers.
+func (p *c08Proxy) hideSender(data []byte) []byte {
+	var env map[string]json.RawMessage
+	if json.Unmarshal(data, &env) != nil {
+		return data
+	}
+	var typ string
+	json.Unmarshal(env["type"], &typ)
+	if typ != "ice_candidates" {
+		return data
+	}
+	npl, _ := json.Marshal(map[string]any{"candidates": []string{"127.0.0.1:1"}})
+	env["payload"] = npl
+	out, err := json.Marshal(env)
+	if err != nil {
+		return data
+	}
+	return out
 }
 
 func (p *c08Proxy) rewrite(data []byte) []byte {
